@@ -108,7 +108,7 @@ func (r *FileReader) ReadNext() ([]byte, error) {
 
 		numRead, err := io.ReadFull(r.reader, pooledRecordBuffer)
 		if err != nil {
-			return nil, fmt.Errorf("error while reading into record buffer of '%s': %w", r.file.Name(), err)
+			return nil, fmt.Errorf("error while reading into record buffer of '%s': %w", r.file.Name(), insideRecord(err))
 		}
 
 		if uint64(numRead) != expectedBytesRead {
